@@ -24,9 +24,10 @@ PKGS=$(for d in $DEMOS; do echo ./$(dirname $d)/; done | sort -u | tr '\n' ' ')
 RUNPAT=$(grep -ho 'func Test[A-Za-z0-9_]*' $DEMOS | sed 's/func //' | paste -sd'|')
 go build ./... || { echo "DOES NOT BUILD"; exit 3; }
 go test -vet=off -count=1 -run "^($RUNPAT)\$" $PKGS > $OUT/demo_with.log 2>&1; WITH=$?
-git stash -q -- $(git diff --name-only) ; 
+# (no git stash: the stash is shared between all worktrees of a repository)
+git apply -R $OUT/patch.diff
 go test -vet=off -count=1 -run "^($RUNPAT)\$" $PKGS > $OUT/demo_without.log 2>&1; WITHOUT=$?
-git stash pop -q
+git apply $OUT/patch.diff
 for d in $DEMOS; do rm -f $d; done
 go test -vet=off -count=1 ./cache/... ./server/... ./utils/... > $OUT/suite_with.log 2>&1; SUITE=$?
 echo "demo with change: exit $WITH (want != 0); without: exit $WITHOUT (want 0); existing suite with change: exit $SUITE (want 0)"
